@@ -487,3 +487,325 @@ pub fn run_cluster_check(a: &CheckArgs, spec: &PropSpec) -> i32 {
     }
     0
 }
+
+
+// ------------------------------------------------------------------------------------------
+// component engines
+
+pub fn run_comp_engine(engine: &str, p: &crate::comp::CompParams) -> crate::comp::CompOutcome {
+    match engine {
+        "quorum" => crate::comp::quorum::run(p),
+        "confchange" => crate::comp::confchange::run(p),
+        "raftlog" => crate::comp::raftlog::run(p),
+        "inflights" => crate::comp::inflights::run(p),
+        "memstorage" => crate::comp::memstorage::run(p),
+        _ => {
+            let mut o = crate::comp::CompOutcome::default();
+            o.violation("C20", "harness", "unknown-engine", format!("unknown engine {}", engine));
+            o
+        }
+    }
+}
+
+pub struct CompSpec {
+    pub id: &'static str,
+    pub engine: &'static str,
+    pub rule: &'static str,
+    /// Miri in the quick tier: 0 = none, 1 = focused smoke (budget 0), n>1 = n shards
+    pub quick_miri: u32,
+    pub thorough_miri_shards: u32,
+}
+
+pub const COMP_PROPS: &[CompSpec] = &[
+    CompSpec {
+        id: "C11",
+        engine: "quorum",
+        rule: "component engine quorum: MajorityConfig / JointConfig / ProgressTracker commit index, vote tallies, has_quorum and group commit against brute-force oracles; exhaustive over all pairs of voter halves within ids 1..5 with acked indexes in {missing,0..3}, random for 0-9 ids per half with arbitrary u64 indexes, partial vote maps and group assignments; distinct by (sizes, overlap, tie pattern, result class, vote class, groups)",
+        quick_miri: 1,
+        thorough_miri_shards: 16,
+    },
+    CompSpec {
+        id: "C12",
+        engine: "confchange",
+        rule: "component engine confchange: breadth-first walk over configurations reachable through Changer::{simple, enter_joint, leave_joint} + apply_conf with change lists over ids 0..6, compared with a set-algebra reference, structural invariants, restore round trip, Raft::new, and quorum overlap over all subset pairs; distinct by (configuration, operation, change list, accepted?)",
+        quick_miri: 0,
+        thorough_miri_shards: 8,
+    },
+    CompSpec {
+        id: "C14",
+        engine: "raftlog",
+        rule: "component engine raftlog: random operation sequences over RaftLog<SimStorage> (append, maybe_append at every position class, commit, ready cycle, persistence notices incl. stale ones, snapshot restore, apply, storage compaction), every observer compared with a plain sequence model after every operation; distinct by per-sequence operation/position-class fingerprint",
+        quick_miri: 0,
+        thorough_miri_shards: 8,
+    },
+    CompSpec {
+        id: "C18",
+        engine: "inflights",
+        rule: "component engine inflights: every operation sequence up to a fixed length over {add, free_to (5 position classes), free_first_one, reset, set_cap, maybe_free_buffer} from capacities 0..=4, plus long random sequences, against a VecDeque model; distinct by per-sequence (operation, fullness, wrap-around, pending capacity) fingerprint",
+        quick_miri: 0,
+        thorough_miri_shards: 8,
+    },
+    CompSpec {
+        id: "C19",
+        engine: "memstorage",
+        rule: "component engine memstorage: mutation sequences permitted by the documented preconditions (append incl. overwriting, compact, apply_snapshot, set_hardstate, commit_to, set_conf_state, snapshot-unavailable) followed by every query, against a snapshot-point + entries model; distinct by per-sequence operation/outcome fingerprint",
+        quick_miri: 0,
+        thorough_miri_shards: 8,
+    },
+];
+
+pub fn comp_spec_of(id: &str) -> Option<&'static CompSpec> {
+    COMP_PROPS.iter().find(|p| p.id == id)
+}
+
+struct ToolRun {
+    ok: bool,
+    inconclusive: Option<String>,
+    cases: u64,
+    ops: u64,
+    violations: Vec<String>,
+    ub: Option<String>,
+    wall: f64,
+}
+
+fn run_tool_shard(tool: &str, engine: &str, seed: u64, shard: u32, shards: u32, budget: u64) -> ToolRun {
+    let t0 = Instant::now();
+    let mut cmd = std::process::Command::new("cargo");
+    cmd.current_dir("/verif/harness").env("CARGO_NET_OFFLINE", "true");
+    let seed_s = seed.to_string();
+    let shard_s = shard.to_string();
+    let shards_s = shards.to_string();
+    let budget_s = budget.to_string();
+    match tool {
+        "miri" => {
+            cmd.env("MIRIFLAGS", "-Zmiri-disable-isolation");
+            cmd.args(["+nightly", "miri", "run", "--target-dir", "/verif/harness/target/miri", "--", "comp", "--engine", engine, "--miri", "--seed", &seed_s, "--shard", &shard_s, "--shards", &shards_s, "--budget", &budget_s]);
+        }
+        _ => {
+            // AddressSanitizer build (nightly, explicit target as required by -Zsanitizer)
+            cmd.env("RUSTFLAGS", "--cfg tikv_raft_rs_verif -Zsanitizer=address -Cforce-frame-pointers=yes");
+            cmd.env("ASAN_OPTIONS", "halt_on_error=1:abort_on_error=0:detect_leaks=0");
+            cmd.args(["+nightly", "run", "--release", "--target", "x86_64-unknown-linux-gnu", "--target-dir", "/verif/harness/target/asan", "--", "comp", "--engine", engine, "--seed", &seed_s, "--shard", &shard_s, "--shards", &shards_s, "--budget", &budget_s]);
+        }
+    }
+    let out = match cmd.output() {
+        Ok(o) => o,
+        Err(e) => {
+            return ToolRun { ok: false, inconclusive: Some(format!("cannot start {}: {}", tool, e)), cases: 0, ops: 0, violations: vec![], ub: None, wall: 0.0 }
+        }
+    };
+    let stdout = String::from_utf8_lossy(&out.stdout).to_string();
+    let stderr = String::from_utf8_lossy(&out.stderr).to_string();
+    let mut r = ToolRun { ok: false, inconclusive: None, cases: 0, ops: 0, violations: vec![], ub: None, wall: t0.elapsed().as_secs_f64() };
+    for l in stdout.lines() {
+        if l.starts_with("COMP engine=") {
+            for tok in l.split_whitespace() {
+                if let Some(v) = tok.strip_prefix("cases=") {
+                    r.cases = v.parse().unwrap_or(0);
+                }
+                if let Some(v) = tok.strip_prefix("ops=") {
+                    r.ops = v.parse().unwrap_or(0);
+                }
+            }
+            r.ok = true;
+        }
+        if let Some(v) = l.strip_prefix("COMP-VIOLATION ") {
+            r.violations.push(v.to_string());
+        }
+    }
+    let ub_marker = if tool == "miri" { "Undefined Behavior" } else { "AddressSanitizer" };
+    if stderr.contains(ub_marker) {
+        let line = stderr.lines().find(|l| l.contains(ub_marker)).unwrap_or("").to_string();
+        let place = stderr.lines().find(|l| l.contains("/repo/src/")).unwrap_or("").trim().to_string();
+        r.ub = Some(format!("{} {}", line.trim(), place));
+        r.ok = true;
+    } else if !r.ok {
+        let tail: Vec<&str> = stderr.lines().rev().take(6).collect();
+        r.inconclusive = Some(format!("{} run produced no result (exit {:?}): {}", tool, out.status.code(), tail.into_iter().rev().collect::<Vec<_>>().join(" | ")));
+    }
+    r
+}
+
+pub fn run_comp_check(a: &CheckArgs, spec: &CompSpec) -> i32 {
+    let t0 = Instant::now();
+    crate::sim::cluster::install_panic_hook();
+    let known = load_known(&a.known);
+    let budget: u64 = if a.thorough { 8 } else { 1 };
+    // ---- native shards on threads
+    let shards = a.threads.max(1) as u64;
+    let mut handles = Vec::new();
+    for sh in 0..shards {
+        let engine = spec.engine.to_string();
+        let seed = a.seed;
+        handles.push(std::thread::Builder::new().stack_size(32 << 20).spawn(move || {
+            let p = crate::comp::CompParams { seed, budget, shard: sh, shards, miri: false };
+            std::panic::catch_unwind(|| run_comp_engine(&engine, &p)).map_err(|_| {
+                crate::sim::cluster::LAST_PANIC.with(|p| p.borrow_mut().take()).unwrap_or_default()
+            })
+        }).unwrap());
+    }
+    let mut total = crate::comp::CompOutcome::default();
+    let mut harness_errors = Vec::new();
+    for h in handles {
+        match h.join() {
+            Ok(Ok(o)) => total.merge(o),
+            Ok(Err((msg, loc))) => harness_errors.push(format!("engine panicked at {}: {}", loc, msg)),
+            Err(_) => harness_errors.push("engine thread died".to_string()),
+        }
+    }
+    // ---- sanitizer tiers
+    let mut tools: Vec<Value> = Vec::new();
+    let mut tool_violations: Vec<(String, String)> = Vec::new();
+    let mut inconclusive: Vec<String> = Vec::new();
+    let miri_plan: Vec<(u32, u32, u64)> = if a.thorough {
+        (0..spec.thorough_miri_shards).map(|i| (i, spec.thorough_miri_shards, 1)).collect()
+    } else if spec.quick_miri == 1 {
+        vec![(0, 1, 0)]
+    } else {
+        (0..spec.quick_miri).map(|i| (i, spec.quick_miri, 1)).collect()
+    };
+    let mut plans: Vec<(&str, u32, u32, u64)> = miri_plan.iter().map(|(i, n, b)| ("miri", *i, *n, *b)).collect();
+    if a.thorough && spec.id == "C11" {
+        for i in 0..4 {
+            plans.push(("asan", i, 4, 2));
+        }
+    }
+    if !plans.is_empty() {
+        // build once (first shard alone), then the rest in parallel
+        let mut results: Vec<(String, ToolRun)> = Vec::new();
+        let mut pending: Vec<(&str, u32, u32, u64)> = Vec::new();
+        let mut built: std::collections::BTreeSet<&str> = Default::default();
+        for pl in plans {
+            if built.insert(pl.0) {
+                let r = run_tool_shard(pl.0, spec.engine, a.seed, pl.1, pl.2, pl.3);
+                results.push((pl.0.to_string(), r));
+            } else {
+                pending.push(pl);
+            }
+        }
+        let engine = spec.engine;
+        let seed = a.seed;
+        let hs: Vec<_> = pending
+            .into_iter()
+            .map(|pl| {
+                let tool = pl.0.to_string();
+                std::thread::spawn(move || {
+                    let r = run_tool_shard(&tool, engine, seed, pl.1, pl.2, pl.3);
+                    (tool, r)
+                })
+            })
+            .collect();
+        for h in hs {
+            if let Ok(x) = h.join() {
+                results.push(x);
+            }
+        }
+        let mut agg: BTreeMap<String, (u64, u64, u64, f64)> = BTreeMap::new();
+        for (tool, r) in results {
+            let e = agg.entry(tool.clone()).or_insert((0, 0, 0, 0.0));
+            e.0 += 1;
+            e.1 += r.cases;
+            e.2 += r.ops;
+            e.3 = e.3.max(r.wall);
+            if let Some(u) = r.ub {
+                tool_violations.push((format!("{}:{}-report:undefined-behaviour", spec.id, tool), u));
+            }
+            for v in r.violations {
+                let sig = v.split(" :: ").next().unwrap_or("").to_string();
+                tool_violations.push((sig, v));
+            }
+            if let Some(i) = r.inconclusive {
+                inconclusive.push(i);
+            }
+        }
+        for (tool, (n, cases, ops, wall)) in agg {
+            tools.push(json!({"tool": tool, "processes": n, "cases": cases, "operations": ops, "slowest_process_s": wall}));
+        }
+    }
+    // ---- classify
+    let mut seen: BTreeMap<String, String> = BTreeMap::new();
+    let mut known_hits: BTreeMap<String, u64> = BTreeMap::new();
+    for v in &total.violations {
+        if v.prop != spec.id {
+            println!("NOTE other-property {} {}", v.prop, v.sig);
+            continue;
+        }
+        if let Some(k) = known.iter().find(|k| k.property == spec.id && k.signature == v.sig) {
+            *known_hits.entry(k.id.clone()).or_insert(0) += 1;
+        } else {
+            seen.entry(v.sig.clone()).or_insert(v.detail.clone());
+        }
+    }
+    for (sig, det) in &tool_violations {
+        seen.entry(sig.clone()).or_insert(det.clone());
+    }
+    for k in known.iter().filter(|k| k.property == spec.id) {
+        println!("KNOWN-FINDING: property={} {} [{}]", spec.id, k.what, k.id);
+    }
+    let _ = std::fs::create_dir_all(&a.replays);
+    for (i, (sig, det)) in seen.iter().enumerate() {
+        let path = format!("{}/{}-{}-{}-{}.json", a.replays, spec.id, spec.engine, a.seed, i);
+        let j = json!({"property": spec.id, "engine": spec.engine, "seed": a.seed, "tier": if a.thorough {"thorough"} else {"quick"},
+            "signature": sig, "detail": det,
+            "replay_cmd": format!("cd /verif/harness && ./target/release/rvmon comp --engine {} --seed {} --budget {} (the failing case is printed in 'detail')", spec.engine, a.seed, budget)});
+        let _ = std::fs::write(&path, serde_json::to_string_pretty(&j).unwrap());
+        println!("VIOLATION property={} replay={}", spec.id, path);
+        println!("  {} :: {}", sig, det.chars().take(600).collect::<String>());
+    }
+    for h in &harness_errors {
+        println!("HARNESS-ERROR {}", h);
+    }
+    for i in &inconclusive {
+        println!("INCONCLUSIVE {}", i);
+    }
+    let distinct = total.stats.distinct_of(spec.id);
+    let mut counters = serde_json::Map::new();
+    for (k, v) in &total.stats.counters {
+        counters.insert(k.to_string(), json!(v));
+    }
+    let ev = json!({
+        "property_id": spec.id,
+        "tier": if a.thorough { "thorough" } else { "quick" },
+        "seed": a.seed,
+        "level": "exploration",
+        "wall_s": t0.elapsed().as_secs_f64(),
+        "violations": seen.len(),
+        "coverage": {
+            "evaluations": total.cases,
+            "operations_and_comparisons": total.ops,
+            "distinct_nontrivial": distinct,
+            "rule": spec.rule,
+            "exhaustive": false,
+            "exhaustive_part": total.exhaustive_part,
+            "counters": counters,
+            "sanitizer_tiers": tools,
+            "samples": total.samples,
+            "known_findings_observed": known_hits,
+        },
+        "assumptions": [
+            "reference models and SimStorage in /verif/harness are correct",
+            "operation sequences respect the documented preconditions of the component (precondition violations are not behaviour)",
+            "verdict is about the cases of this run only"
+        ],
+    });
+    if let Some(dir) = std::path::Path::new(&a.out).parent() {
+        let _ = std::fs::create_dir_all(dir);
+    }
+    let _ = std::fs::write(&a.out, serde_json::to_string_pretty(&ev).unwrap());
+    println!(
+        "{} {}: cases {} operations/comparisons {} distinct {} wall {:.1}s",
+        spec.id,
+        if a.thorough { "thorough" } else { "quick" },
+        total.cases,
+        total.ops,
+        distinct,
+        t0.elapsed().as_secs_f64()
+    );
+    if !seen.is_empty() {
+        return 1;
+    }
+    if !harness_errors.is_empty() || !inconclusive.is_empty() || total.cases == 0 {
+        return 3;
+    }
+    0
+}
